@@ -5,6 +5,7 @@ package webrtc
 import (
 	"context"
 
+	"github.com/aperturerobotics/bifrost/link"
 	"github.com/pion/datachannel"
 )
 
@@ -17,4 +18,30 @@ func VerifIsOfferer(a, b string) bool { return isOfferer(a, b) }
 func VerifExecuteLink(ctx context.Context, w *WebRTC, remotePeerID string, dc datachannel.ReadWriteCloser) error {
 	_, st := w.newSessionTracker(remotePeerID)
 	return st.executeLink(ctx, dc)
+}
+
+// VerifTracker is a session tracker of a WebRTC transport whose link phases are
+// started by the caller instead of by signaling.
+type VerifTracker struct{ st *sessionTracker }
+
+// VerifNewTracker builds a session tracker for the signaled remote peer.
+func VerifNewTracker(w *WebRTC, remotePeerID string) *VerifTracker {
+	_, st := w.newSessionTracker(remotePeerID)
+	return &VerifTracker{st: st}
+}
+
+// ExecuteLink runs one link phase of the tracker over the given data channel.
+func (t *VerifTracker) ExecuteLink(ctx context.Context, dc datachannel.ReadWriteCloser) error {
+	return t.st.executeLink(ctx, dc)
+}
+
+// Link returns the link the tracker currently holds for its peer (what DialPeer reports), or nil.
+func (t *VerifTracker) Link() link.Link {
+	var l link.Link
+	t.st.w.bcast.HoldLock(func(broadcast func(), getWaitCh func() <-chan struct{}) {
+		if t.st.link != nil {
+			l = t.st.link
+		}
+	})
+	return l
 }
